@@ -73,6 +73,10 @@ EXPLANATION += (
     " Round 8: filled slots are reported to the utility update by the pair's table index."
 )
 
+EXPLANATION += (
+    ' Round 11: index arrays of the re-shaped marker table are not forced into the type of an input array (R-CAP/index-cast-to-input-type).'
+)
+
 RULE_TEXT = (
     "one obligation per loop exit, per filled-slot condition, per "
     "bookkeeping store and per provenance relation")
